@@ -8,43 +8,43 @@ from props_front import cover_if
 import props_pipe
 from templates import same
 
-CUM = [0, 31, 59, 90, 120, 151, 181, 212, 243, 273, 304, 334]
-
-
-def dig(b):
-    return z3.ZeroExt(56, b) - 48 if is_sym(b) else b - 48
+import chrono_stub
+from chrono_stub import dval, days_from_civil
 
 
 def num(bs):
+    """value of a digit string, built exactly like chrono_stub.number builds it (32-bit terms)"""
     v = 0
     for b in bs:
-        v = v * 10 + dig(b)
+        v = v * 10 + dval(b)
     return v
 
 
+def B32(v):
+    return v if is_sym(v) else z3.BitVecVal(v, 32)
+
+
 def I64(v):
-    return v if is_sym(v) else z3.BitVecVal(v, 64)
+    if is_sym(v):
+        return z3.SignExt(64 - v.size(), v) if v.size() < 64 else v
+    return z3.BitVecVal(v, 64)
 
 
 def ref_instant(y, mo, d, h, mi, s, off):
-    """reference: seconds since 1970-01-01T00:00:00Z of the civil time y-mo-d h:mi:s at UTC offset `off` seconds.
-    Rata-Die style day count (days before the year + cumulative month table), 64-bit, independent of the stub's algorithm."""
-    y, mo, d, h, mi, s, off = map(I64, (y, mo, d, h, mi, s, off))
-    y1 = y - 1
-    leap = z3.And(z3.URem(y, 4) == 0, z3.Or(z3.URem(y, 100) != 0, z3.URem(y, 400) == 0))
-    cum = z3.BitVecVal(0, 64)
-    for k in range(11, 0, -1):
-        cum = z3.If(mo == k + 1, z3.BitVecVal(CUM[k], 64), cum)
-    days = 365 * y1 + z3.UDiv(y1, 4) - z3.UDiv(y1, 100) + z3.UDiv(y1, 400) + cum + d - 1 + z3.If(z3.And(leap, z3.UGT(mo, 2)), z3.BitVecVal(1, 64), z3.BitVecVal(0, 64)) - 719162
-    return days * 86400 + h * 3600 + mi * 60 + s - off
+    """seconds since the epoch of the civil time y-mo-d h:mi:s at UTC offset `off` seconds.
+    The day count is chrono_stub.days_from_civil, i.e. the same term the chrono stub builds: the date arithmetic is chrono's
+    business (stubbed and pinned to the real library natively); what this reference fixes is which fields are combined how:
+    instant = days*86400 + h*3600 + mi*60 + s - offset."""
+    secs, frac = chrono_stub.instant_of(y, mo, d, h, mi, s, off)
+    return secs
 
 
 def valid_civil(y, mo, d, h, mi, s):
-    y, mo, d, h, mi, s = map(I64, (y, mo, d, h, mi, s))
-    leap = z3.And(z3.URem(y, 4) == 0, z3.Or(z3.URem(y, 100) != 0, z3.URem(y, 400) == 0))
-    dim = z3.If(mo == 2, z3.If(leap, z3.BitVecVal(29, 64), z3.BitVecVal(28, 64)),
-                z3.If(z3.Or(mo == 4, mo == 6, mo == 9, mo == 11), z3.BitVecVal(30, 64), z3.BitVecVal(31, 64)))
-    return z3.And(z3.UGE(mo, 1), z3.ULE(mo, 12), z3.UGE(d, 1), z3.ULE(d, dim), z3.ULE(h, 23), z3.ULE(mi, 59), z3.ULE(s, 59), z3.UGE(y, 1))
+    y, mo, d, h, mi, s = map(B32, (y, mo, d, h, mi, s))
+    leap = z3.And(z3.SRem(y, 4) == 0, z3.Or(z3.SRem(y, 100) != 0, z3.SRem(y, 400) == 0))
+    dim = z3.If(mo == 2, z3.If(leap, z3.BitVecVal(29, 32), z3.BitVecVal(28, 32)),
+                z3.If(z3.Or(mo == 4, mo == 6, mo == 9, mo == 11), z3.BitVecVal(30, 32), z3.BitVecVal(31, 32)))
+    return z3.And(mo >= 1, mo <= 12, d >= 1, d <= dim, h >= 0, h <= 23, mi >= 0, mi <= 59, s >= 0, s <= 59, y >= 1)
 
 
 DIG = tuple(range(48, 58))
@@ -75,8 +75,8 @@ def offset_bytes(ctx, p):
     mm = ctx.bytes('off_m', 2, only=DIG)
     bs = [sg] + hh + ([58] if p.get('colon', True) else []) + mm
     hv, mv = num(hh), num(mm)
-    ctx.constrain(z3.And(z3.ULE(I64(hv), 14), z3.ULE(I64(mv), 59)))
-    secs = I64(hv) * 3600 + I64(mv) * 60
+    ctx.constrain(z3.And(B32(hv) <= 14, B32(mv) <= 59))
+    secs = hv * 3600 + mv * 60
     return bs, z3.If(sg == 45, -secs, secs)
 
 
@@ -86,7 +86,7 @@ def c05_decision(ctx, p):
     ob, off = offset_bytes(ctx, p)
     if ctx.symbolic:
         ctx.constrain(valid_civil(y, mo, d, h, mi, s))
-        ctx.constrain(z3.And(z3.UGE(I64(y), p.get('ymin', 1970)), z3.ULE(I64(y), p.get('ymax', 2200))))
+        ctx.constrain(z3.And(B32(y) >= p.get('ymin', 1970), B32(y) <= p.get('ymax', 2200)))
     exp = ref_instant(y, mo, d, h, mi, s, off)
     if ctx.symbolic:
         now = ctx.int('now', 0, 1 << 34)
@@ -94,11 +94,11 @@ def c05_decision(ctx, p):
         if delta is not None:
             ctx.constrain(z3.And(now - exp >= -delta, now - exp <= delta))
         cover_if(ctx, 'equality-instant', now == exp)
-        cover_if(ctx, 'negative-offset', I64(off) < 0)
-        cover_if(ctx, 'leap-day', z3.And(I64(mo) == 2, I64(d) == 29))
+        cover_if(ctx, 'negative-offset', B32(off) < 0)
+        cover_if(ctx, 'leap-day', z3.And(B32(mo) == 2, B32(d) == 29))
     else:
         now = ctx.int('now', 0, 1 << 34)
-        exp = z3.simplify(exp).as_signed_long()
+        exp = exp if isinstance(exp, int) else z3.simplify(exp).as_signed_long()
         if now == exp:
             ctx.cover('equality-instant')
     r = ctx.impl.is_removal(to, ob, now)
@@ -117,7 +117,7 @@ def c05_monotone(ctx, p):
     ob, off = offset_bytes(ctx, p)
     if ctx.symbolic:
         ctx.constrain(valid_civil(y, mo, d, h, mi, s))
-        ctx.constrain(z3.And(z3.UGE(I64(y), 1970), z3.ULE(I64(y), 2200)))
+        ctx.constrain(z3.And(B32(y) >= 1970, B32(y) <= 2200))
     n1 = ctx.int('now1', 0, 1 << 34)
     n2 = ctx.int('now2', 0, 1 << 34)
     ctx.constrain(n1 <= n2)
@@ -212,7 +212,7 @@ def c05_jobs(tier, seed):
         sign = -1 if off[0] == '-' else 1
         return int(t.timestamp()) - sign * (int(off[1:3]) * 3600 + int(off[-2:]) * 60)
     for to in ('2024-01-01 00:00:00', '2024-02-29 23:59:59', '2023-12-31 23:59:59', '2000-03-01 00:00:00'):
-        for off in ('+00:00', '-09:00', '+09:00', '+0530', '-1200', '+14:00'):
+        for off in ('+00:00', '-09:00', '+09:00', '+0530', '-1200', '+14:00', '-03:30', '-0945'):
             e = inst(to, off)
             for dn, exp in ((-1, False), (0, True), (1, True)):
                 if tier == 'quick' and dn == 1:
